@@ -19,11 +19,13 @@ EXTENDS Integers, Sequences, TLC, Json, IOUtils
 Rec == ndJsonDeserialize(IOEnv.TRACE)
 NRec == Len(Rec)
 Has(e, f) == f \in DOMAIN e
-Reject(pos, why) == PrintT(<<"REJECT", pos, why>>)
-Known(pos, dev, why) == PrintT(<<"KNOWN", pos, dev, why>>)
+\* printed as one JSON line (PrintT of a tuple would be wrapped over several lines)
+Reject(pos, why) == PrintT(ToJson(<<"REJECT", pos, why>>))
+Known(pos, dev, why) == PrintT(ToJson(<<"KNOWN", pos, dev, why>>))
+Stat(what) == PrintT(ToJson(<<"STAT", what>>))
 \* names of the deviation actions enabled for this run (from known_findings.txt), comma separated
 DevList == IF "DEVS" \in DOMAIN IOEnv THEN IOEnv.DEVS ELSE ""
 \* every line consumed: one state per line plus the initial state
 AllConsumed == \/ TLCGet("stats").diameter = NRec + 1
-               \/ PrintT(<<"UNCONSUMED", TLCGet("stats").diameter, NRec>>) /\ FALSE
+               \/ PrintT(ToJson(<<"UNCONSUMED", TLCGet("stats").diameter, NRec>>)) /\ FALSE
 =============================================================================
